@@ -21,6 +21,15 @@ Definition free_fsample (p : profile) (s : fsample) : term :=
       TL (map (free_frame p) (fs_frames s))].
 Definition free_fsamples (p : profile) (ss : list fsample) : term := TL (map (free_fsample p) ss).
 
+(* steps of a history: prune d k | prunefrom re | removeun | fetch (the driver's fetchProfiles =
+   RemoveUninteresting once, error ignored) | report re (generateRawReport with prune_from=re) *)
+Definition step_of (t : term) : pstep :=
+  let k := gs (gn t 0) in
+  if String.eqb k "prune" then SPrune (gs (gn t 1)) (opt_s (gn t 2))
+  else if String.eqb k "prunefrom" || String.eqb k "report" then SPruneFrom (gs (gn t 1))
+  else SRemoveUn.
+Definition steps_of (t : term) : list pstep := map step_of (gl t).
+
 Definition run_C11 (i : term) : term :=
   let op := gs (gn i 0) in
   if String.eqb op "simplify" then TS (simplify_func (gs (gn i 1)))
@@ -46,6 +55,11 @@ Definition run_C11 (i : term) : term :=
       let tbl := gn i 2 in
       if negb (needed_ok tbl p) then TL [TS "table-miss"] else
       let p' := match remove_uninteresting (tbl_M tbl) (tbl_V tbl) p with Some q => q | None => p end in
+      TL [TS "ok"; free_fsamples p' (fsamples p')]
+    else if String.eqb op "history" then
+      let tbl := gn i 3 in
+      if negb (needed_ok tbl p) then TL [TS "table-miss"] else
+      let p' := run_steps (tbl_M tbl) (tbl_V tbl) p (steps_of (gn i 2)) in
       TL [TS "ok"; free_fsamples p' (fsamples p')]
     else TL [TS "bad-op"].
 
@@ -83,6 +97,10 @@ Definition spec_C11 (i o : term) : bool :=
       let want := if String.eqb (p_dropframes p) "" || negb compiles then fsamples p
                   else spec_prune (tbl_M tbl) p (ru_drop p) (ru_keep p) (fsamples p) in
       String.eqb (gs (gn o 0)) "ok" && term_eqb (gn o 1) (free_fsamples p want)
+    else if String.eqb op "history" then
+      let tbl := gn i 3 in
+      String.eqb (gs (gn o 0)) "ok"
+      && term_eqb (gn o 1) (free_fsamples p (spec_steps (tbl_M tbl) (tbl_V tbl) p (steps_of (gn i 2)) (fsamples p)))
     else false.
 
 Definition cls_C11 (i : term) : list Z :=
@@ -98,6 +116,9 @@ Definition cls_C11 (i : term) : list Z :=
       if negb (String.eqb (p_dropframes p) "") && tbl_V (gn i 2) (ru_drop p)
          && match ru_keep p with Some k => tbl_V (gn i 2) k | None => true end
          && in_F14 (tbl_M (gn i 2)) p (ru_drop p) (ru_keep p) then [14] else []
+    else if String.eqb op "history" then
+      let tbl := gn i 3 in
+      nodup Z.eq_dec (steps_classes (tbl_M tbl) (tbl_V tbl) p (steps_of (gn i 2)))
     else [].
 
 Definition judge_C11 := judge_all run_C11 eqv_C11 spec_C11 cls_C11 0%Z.
